@@ -116,6 +116,16 @@ Example C08_example_resend :
       map tid (vtxs p) = [0; 3; 4] /\ map tid resent = [0; 3]).
 Proof. vm_compute. repeat split; reflexivity. Qed.
 
+(* who pays: only a transaction SENT by the Notary contract is charged to the second signer's deposit; booking a
+   main transaction that merely carries Notary among its further signers under (sender, Signers[1]) passes the
+   pool's per-group balance checks and still over-commits the sender *)
+Theorem C08_payer_by_cosigner_refuted :
+  (forall p, In p [(2, 0); (2, notary)] -> sum_fees_by payer_by_cosigner p [pc_t1; pc_t2] <= feer_view pc_bal p)
+  /\ payer_of pc_t2 = (2, 0)
+  /\ sum_fees (2, 0) [pc_t1; pc_t2] = 120 /\ pc_bal (2, 0) = 100.
+Proof. exact payer_by_cosigner_refuted. Qed.
+Print Assumptions C08_payer_by_cosigner_refuted.
+
 (* non-vacuity: a concrete universe, balances and history satisfying every hypothesis above *)
 Example C08_example_universe : good_universe ex_U /\ bal_ok ex_bal /\ Forall (op_ok ex_U) ex_ops.
 Proof. exact (conj ex_universe (conj (proj1 ex_bal_ok) ex_ops_ok)). Qed.
